@@ -33,9 +33,10 @@ Singles(l) ==
   \cup {[kind |-> "fatsec_unmarked", grp |-> "alloc", at |-> k, val |-> v] : k \in 1..Len(l.fatsecs),
           v \in {ENDC, FREE, -4, -5, 0, 1, 2, Len(l.fat) - 1, Len(l.fat), Len(l.fat) + 7}}
   \cup (IF Len(l.minifat) > 0 /\ Len(l.minifat) < Len(l.mfsecs) * FatPer
-        \* what the excess entries hold is the writer's business: end / free markers, ordinary numbers (an entry that
+        \* what the excess entries hold is the writer's business: the end marker, ordinary numbers (an entry that
         \* "points" at a mini sector another entry points at as well), or zeros up to the end of the sector
-        THEN {[kind |-> "minifat_long", grp |-> "alloc", at |-> 0, val |-> v] : v \in {ENDC, FREE, 0, 1}}
+        \* (not FREE: the reader drops trailing free entries, a MiniFAT "extended" by one is the same valid file)
+        THEN {[kind |-> "minifat_long", grp |-> "alloc", at |-> 0, val |-> v] : v \in {ENDC, 0, 1}}
              \cup {[kind |-> "minifat_zero_pad", grp |-> "alloc", at |-> 0, val |-> 0]} ELSE {})
   \cup {[kind |-> "red_red", grp |-> "dir", at |-> e, val |-> 0] : e \in SibEdges(l)}
   \cup {[kind |-> "unterminated", grp |-> "dir", at |-> i, val |-> 0] : i \in AllocSlots(l)}
